@@ -22,6 +22,7 @@ type V struct {
 	K string       `json:"k"`           // kind, see Build
 	S string       `json:"s,omitempty"` // string payload / number spelled as text / time RFC3339Nano
 	Z string       `json:"z,omitempty"` // time zone name
+	N string       `json:"n,omitempty"` // field name (elements of a "dyn" struct)
 	L []V          `json:"l,omitempty"` // elements
 	M map[string]V `json:"m,omitempty"` // entries
 	F *Fn          `json:"f,omitempty"` // host function
@@ -269,6 +270,24 @@ func (v V) Build(rec *Recorder) interface{} {
 			return &s
 		}
 		return s
+	case "dyn": // struct type synthesised with reflect.StructOf: fields in the order of L
+		var fields []reflect.StructField
+		vals := make([]interface{}, len(v.L))
+		for i, f := range v.L {
+			vals[i] = f.Build(rec)
+			t := anyType
+			if vals[i] != nil && f.K != "nil" && f.K != "map" && f.K != "slice" {
+				t = reflect.TypeOf(vals[i])
+			}
+			fields = append(fields, reflect.StructField{Name: f.N, Type: t})
+		}
+		sv := reflect.New(reflect.StructOf(fields)).Elem()
+		for i := range v.L {
+			if vals[i] != nil {
+				sv.Field(i).Set(reflect.ValueOf(vals[i]))
+			}
+		}
+		return sv.Interface()
 	case "nilptr":
 		return (*int)(nil)
 	case "nilS":
